@@ -17,22 +17,22 @@ variable (opq : String → ℝ → ℝ) (ρ : String → ℝ)
 
 /-- power(z) = growth_factor(z)² · power(0) -/
 theorem power_growth : evalR opq ρ Gen.Flow.Transfer_power = ρ "growth_factor" ^ 2 * ρ "_power0" := by
-  simp only [Gen.Flow.Transfer_power]; expr_unfold; simp [zpow_ofNat]
+  simp only [Gen.Flow.Transfer_power]; expr_unfold <;> expr_finish
 /-- Δ²(k) = k³ P / (2π²) -/
 theorem delta_k_eq : evalR opq ρ Gen.Flow.Transfer_delta_k = ρ "k" ^ 3 * ρ "power" / (2 * π ^ 2) := by
-  simp only [Gen.Flow.Transfer_delta_k]; expr_unfold; push_cast; simp only [zpow_ofNat]; norm_num
+  simp only [Gen.Flow.Transfer_delta_k]; expr_unfold <;> first | (push_cast; simp only [zpow_ofNat]; norm_num; done) | expr_finish
 /-- P(z=0) = normalisation² × un-normalised power, and the un-normalised power is kⁿ T² -/
 theorem power0_eq : evalR opq ρ Gen.Flow.Transfer__power0 = ρ "_normalisation" ^ 2 * ρ "_unnormalised_power" := by
-  simp only [Gen.Flow.Transfer__power0]; expr_unfold; simp [zpow_ofNat]
+  simp only [Gen.Flow.Transfer__power0]; expr_unfold <;> expr_finish
 theorem unnormalised_power_eq :
     evalR opq ρ Gen.Flow.Transfer__unnormalised_power = ρ "k" ^ ρ "n" * (exp (ρ "_unnormalised_lnT")) ^ 2 := by
-  simp only [Gen.Flow.Transfer__unnormalised_power]; expr_unfold; simp [zpow_ofNat]
+  simp only [Gen.Flow.Transfer__unnormalised_power]; expr_unfold <;> expr_finish
 /-- the normalisation constant is σ₈ / (un-normalised σ at 8 Mpc/h) -/
 theorem normalisation_eq : evalR opq ρ Gen.Flow.Transfer__normalisation = ρ "sigma_8" / ρ "_unn_sig8" := by
-  simp only [Gen.Flow.Transfer__normalisation]; expr_unfold
+  simp only [Gen.Flow.Transfer__normalisation]; expr_unfold <;> expr_finish
 /-- the wavenumber grid: k_i = exp(lnk_min + i·dlnk) -/
 theorem k_grid : evalR opq ρ Gen.Flow.Transfer_k = exp (ρ "lnk_min" + ρ "idx" * ρ "dlnk") := by
-  simp only [Gen.Flow.Transfer_k]; expr_unfold
+  simp only [Gen.Flow.Transfer_k]; expr_unfold <;> expr_finish
 
 /-- P(z=0) ∝ kⁿ T(k)²: composing the two bodies -/
 theorem power0_shape :
